@@ -88,7 +88,25 @@ class Enum:
             cal = e.get("callee", "")
             args = e["args"]
             touches_out = any(_root_local(strip(a)) == self.out_id or (strip_ref(a).get("k") == "AddrOf" and _root_local(strip_ref(a)["e"]) == self.out_id) for a in args)
-            if cal == self.indent_fn:
+            def root_of(a):
+                r = strip_ref(a)
+                return _root_local(r["e"]) if r.get("k") == "AddrOf" else _root_local(strip(a))
+            helper_fn = self.N.transparent_fn(cal, len(args)) if cal != self.indent_fn and touches_out else None
+            spliced = None
+            if helper_fn is not None and strip(helper_fn["body"]).get("k") == "Block":
+                # a private straight-line helper working on the output on the loop's behalf: its effects are the loop's effects
+                pids = [p.get("id") if p.get("k") == "Bind" else None for p in helper_fn.get("params", [])]
+                def bound(want):
+                    hits = [pids[i] for i, a in enumerate(args) if want is not None and root_of(a) == want]
+                    return hits[0] if len(hits) == 1 else None
+                sub = Enum(Norm(helper_fn), bound(self.out_id), bound(self.ch_id), bound(self.level_id), self.indent_fn)
+                if sub.out_id is not None:
+                    paths = sub.block_paths(strip(helper_fn["body"])["b"])
+                    if len(paths) == 1 and not any(x[0] in ("unknown", "exit") for x in paths[0]):
+                        spliced = paths[0]
+            if spliced is not None:
+                ev += spliced
+            elif cal == self.indent_fn:
                 lv = [a for a in args if _root_local(a) == self.level_id]
                 ev.append(("indent", bool(lv) and touches_out, e["sp"]))
             elif touches_out:
@@ -227,10 +245,30 @@ def check(ctx):
         return x is m
     only_match = tb_b is not None and ((len(tb_b["stmts"]) == 0 and _is_m(tb_b.get("expr", {}))) or (len(tb_b["stmts"]) == 1 and "expr" not in tb_b and _is_m(tb_b["stmts"][0]["e"])))
     ctx.expect(only_match, "C15.3", "loop-body-is-match", site(lp), "the loop body consists of the character dispatch only", "extra statements around the character match")
+    # role: the function taking (&mut String, <integer level>) that the formatter (or one of its private helpers) calls with the output
     indent_fn = None
-    for n in walk(fn["body"]):
-        if n.get("k") == "Call" and n.get("callee", "").endswith("::add_indentation"):
-            indent_fn = n["callee"]
+    INTS_ = ("i8", "i16", "i32", "i64", "i128", "isize", "u8", "u16", "u32", "u64", "u128", "usize")
+    cands = [b for c, b in P.all_bodies((CR,)) if b.get("dk") == "Fn" and "body" in b and len(b.get("inputs", [])) == 2
+             and "&mut std::string::String" in b["inputs"] and any(t in INTS_ for t in b["inputs"])]
+    called = set()
+    stack = [fn["path"]]
+    seen_f = set()
+    while stack:
+        f = stack.pop()
+        if f in seen_f:
+            continue
+        seen_f.add(f)
+        fb = P.body(f)
+        if fb is None or "body" not in fb:
+            continue
+        for n in walk(fb["body"]):
+            if n.get("k") == "Call" and n.get("callee"):
+                called.add(n["callee"])
+                if N.transparent_fn(n["callee"]) is not None and n["callee"].startswith(fn["path"].rsplit("::", 1)[0]):
+                    stack.append(n["callee"])
+    cands = [b for b in cands if b["path"] in called and not any(x.get("k") == "Call" and x.get("callee") in [c2["path"] for c2 in cands if c2 is not b] for x in walk(b["body"]))]
+    if len(cands) == 1:
+        indent_fn = cands[0]["path"]
     E = Enum(N, out_id, ch_id, level_id, indent_fn)
     n_paths = 0
     arms_seen = []
